@@ -262,7 +262,7 @@ def _check_single(w, qc0):
 
 
 def placed(name, qs, idx=0):
-    nc, nt = decomp.SHAPE[name]
+    nc, nt = XSHAPE[name]
     t, c = list(qs[:nt]), list(qs[nt:])
     if name in PARAM:
         return RG(name, t, c, sym=idx, val=0.7390851332151607)
@@ -642,8 +642,10 @@ class C13(PropertyCheck):
             for N in range(1, 6):
                 if not buildable(dev, N):
                     continue
-                for name in RESOLVABLE + OTHERS + MODEL_EXTRA:
-                    nc, nt = decomp.SHAPE[name]
+                # + the alias names of the gate classes: H has the rule of SNOT (Gen.ruleAlias, the driver reads it as SNOT),
+                # CX / iSWAP / SWAPALPHA have no rule and are names the model does not know either
+                for name in RESOLVABLE + OTHERS + MODEL_EXTRA + list(ALIASES):
+                    nc, nt = XSHAPE[name]
                     if nc + nt > N:
                         continue
                     for qs in itertools.permutations(range(N), nc + nt):
